@@ -177,12 +177,33 @@ def ref_policy(pol, rs):
     return p
 
 
+def rules_addressable(rs, rcanon):
+    """[rules]/[keys] paths are resolved in the right-hand document: /a must
+    be a key of a right-hand Hash, / an Array-of-Hashes root."""
+    for section in ("rules", "keys"):
+        for path in (rs.get(section) or {}):
+            name = path.strip("/")
+            if not name:
+                if not refmerge.is_aoh(rcanon):
+                    return False
+            elif rcanon[0] != "m" or name not in [
+                    refmerge.keyname(k) for k, _ in rcanon[1]]:
+                return False
+            elif section == "keys" and not refmerge.is_aoh(
+                    dict((refmerge.keyname(k), v) for k, v in rcanon[1])[name]):
+                return False
+    return True
+
+
 def check_merge(st, ldoc, rdoc, lcanon, rcanon, ltext, rtext, shapes, pol, rs):
     st.evaluations += 1
     st.transitions += 1
     case = {"lhs": ltext, "rhs": rtext, "policies": pol, "config": rs}
     psig = "%(hashes)s/%(arrays)s/%(aoh)s/%(sets)s" % pol
     try:
+        if rs and not rules_addressable(rs, rcanon):
+            raise refmerge.Unspecified("rule/key path does not address a "
+                                       "node of the right-hand document")
         exp = ("doc", refmerge.merge(lcanon, rcanon, ref_policy(pol, rs)))
     except refmerge.MergeError as ex:
         exp = ("error", str(ex))
